@@ -37,9 +37,28 @@ theorem ci_flag_prefix (cfg : Config) (ast : Expr) (hci : cfg.ci = true) (hv : c
 theorem no_ci_no_flag (cfg : Config) (hci : cfg.ci = false) (hv : cfg.verb = false) : flagText cfg = [] := by
   simp [flagText, hci, hv]
 
-/-- **C04 (collapse)** test cases whose lower-cased forms coincide are stored once -/
-theorem collapse (env : Env) (ws : List Str) : (sortCases (lowerCases env ws)).Nodup :=
+/-- the stored list has no duplicates (true of any list: used below) -/
+theorem stored_nodup (env : Env) (ws : List Str) : (sortCases (lowerCases env ws)).Nodup :=
   Props.C10.sortCases_nodup _
+
+/-- **C04 (collapse)** every test case is stored in its converted form exactly once, so test cases whose converted (lower-cased)
+forms coincide — however many of them there are — are stored as one entry -/
+theorem collapse (env : Env) (ws : List Str) (w : Str) (hw : w ∈ ws) :
+    (sortCases (lowerCases env ws)).count (lowerOne env w) = 1 := by
+  have h1 : (sortCases (lowerCases env ws)).count (lowerOne env w) ≤ 1 :=
+    List.nodup_iff_count.mp (stored_nodup env ws) _
+  have h2 : 0 < (sortCases (lowerCases env ws)).count (lowerOne env w) := by
+    rw [List.count_pos_iff, Props.C10.sortCases_mem]
+    exact List.mem_map.mpr ⟨w, hw, rfl⟩
+  omega
+
+/-- two test cases with the same converted form share that one entry -/
+theorem collapse_pair (env : Env) (ws : List Str) (w1 w2 : Str) (h1 : w1 ∈ ws) (h2 : w2 ∈ ws)
+    (heq : lowerOne env w1 = lowerOne env w2) :
+    (sortCases (lowerCases env ws)).count (lowerOne env w2) = 1 ∧ lowerOne env w1 ∈ sortCases (lowerCases env ws) := by
+  refine ⟨collapse env ws w2 h2, ?_⟩
+  rw [Props.C10.sortCases_mem]
+  exact List.mem_map.mpr ⟨w1, h1, rfl⟩
 
 /-- lower-casing keeps a test case whose lower-cased form has another number of code points -/
 theorem keeps_when_length_changes (env : Env) (w : Str) (h : (env.lowerOf w).length ≠ w.length) :
